@@ -167,7 +167,7 @@ def cond_ops(Dx, Dy, R, vi, seed, kw):
 def run_shard(shard, ctx):
     tier, seed = shard["tier"], shard["seed"]
     fam, D = shard["fam"], shard["D"]
-    vis = [0, 100] if tier == "quick" else [0, 1, 100, 101]
+    vis = [0, 100] if tier == "quick" else [0, 1, 100, 101, 102, 103, 104, 105]
     for R in BOUNDS[tier]["R"]:
         for vi in vis:
             facts = dict(R=R, vi=vi)
